@@ -117,6 +117,13 @@ CHECKS['C06'] = ('simnet', 'fault_enumeration',
     'output is missing, per-sink ordering must still hold and no filter may end with an exception.',
     SIMNET_NOTE + ' Liveness is bounded liveness on sampled schedules ("never deadlocks under any fair schedule" is not established).', '5 C06')
 
+CHECKS['C08'] = ('simnet', 'fault_enumeration',
+    'fault injection on a simulated network: complete enumeration of the (injection point x exit kind x 4x4 policy pair x position) matrix plus Hypothesis-generated per-filter policies/delays; reference model of the lifecycle contract over call log, wire log and socket table',
+    'For every cell: shutdown() exactly once iff setup() completed, no socket of the ended filter open or bound, stop event set, run() returned for clean exits and raised the injected exception for errors, '
+    'the exit is announced iff prop_exit allows it, every neighbour that received an announcement it obeys has ended (cleanly, torn down) and nobody else has, transitively; '
+    'exit_after (seconds, m:s, @time) ends a processing filter within [T, T + 0.5 s].',
+    SIMNET_NOTE + ' Exits are injected at lifecycle points of our own Filter subclass; multi-process Runner not covered.', '5 C08')
+
 PENDING = {}
 
 
